@@ -694,10 +694,18 @@ func (gs *GossipSubRouter) Attach(p *PubSub) {
 	if len(gs.direct) > 0 {
 		go func() {
 			if gs.params.DirectConnectInitialDelay > 0 {
-				time.Sleep(gs.params.DirectConnectInitialDelay)
+				select {
+				case <-time.After(gs.params.DirectConnectInitialDelay):
+				case <-gs.p.ctx.Done():
+					return
+				}
 			}
 			for p := range gs.direct {
-				gs.connect <- connectInfo{p: p}
+				select {
+				case gs.connect <- connectInfo{p: p}:
+				case <-gs.p.ctx.Done():
+					return
+				}
 			}
 		}()
 	}
@@ -2006,7 +2014,11 @@ func (gs *GossipSubRouter) directConnect() {
 	if len(toconnect) > 0 {
 		go func() {
 			for _, p := range toconnect {
-				gs.connect <- connectInfo{p: p}
+				select {
+				case gs.connect <- connectInfo{p: p}:
+				case <-gs.p.ctx.Done():
+					return
+				}
 			}
 		}()
 	}
